@@ -288,6 +288,12 @@ func (g *gen) sanitize(o client.Object) {
 					taken[r.Host+"#"+p.Path] = true
 				}
 			}
+			if o.(*networking.Ingress).Spec.DefaultBackend != nil {
+				taken["#/"] = true // spec.defaultBackend declares the root of the default host
+			}
+		}
+		if ing.Spec.DefaultBackend != nil && taken["#/"] {
+			ing.Spec.DefaultBackend = nil
 		}
 		for i := range ing.Spec.Rules {
 			r := &ing.Spec.Rules[i]
